@@ -95,8 +95,8 @@ def _check_vector(ctx, n, stats, realise=True):
         again = ctx.call(prs.pc_n, arr)
         ctx.count("count_array_reused")
         if arr.tolist() != list(n):
-            ctx.violation("pc_n:argument-modified", "pc_n modified the caller's count array", arr.tolist(), list(n))
-        elif not again.ok or not _close(again.value, want_pc):
+            ctx.count("count_array_modified")                # argument purity is C20's property; the value of the second call decides here
+        if not again.ok or not _close(again.value, want_pc):
             ctx.violation("pc_n:second-call-differs", "a second pc_n call on the same array gives another value", again.describe(), str(want_pc), {"n": list(n)})
     if not fl.ok or not _close(fl.value, want_pc):
         ctx.violation("pc_n:float:wrong", "pc_n on an integer array differs from the exact U-statistic", fl.describe(), str(want_pc), {"n": list(n)})
